@@ -108,8 +108,8 @@ CHECKS = {
    text="TLC checks Balancer.tla exhaustively (3 peers, 7-9 operations: add/remove with cursor repair, per-peer fullness toggled "
         "by the environment, sync and async sweeps, wait_for_connection as register/check/await against Notify): RouteOk, "
         "CursorInRange, WaiterWakes, WaitingIsRegistered. Simulated histories are replayed on the real orchestrator with "
-        "scripted connections (chosen peer per send compared; exactly-one / never-full / never-removed / not-refused-with-room / "
-        "rotation-fairness judged on the real outcome); wait_for_connection runs under the controlled scheduler with the peer "
+        "scripted connections (chosen peer per send compared - passing over the peer whose turn it is while it is attached and has room is a "
+        "violation; exactly-one / never-full / never-removed / not-refused-with-room / rotation-fairness judged on the real outcome); wait_for_connection runs under the controlled scheduler with the peer "
         "added at every point; real PUSH with 3 PULLs (stalled, late, leaving, send-before-first-peer, several tasks waiting in send() "
         "for the first peer, an endpoint that accepts and never answers) is validated by TLC "
         "against Delivery.tla.",
@@ -122,7 +122,7 @@ CHECKS = {
         "x 3-4 calls, every interleaving and call sequence): ReqAlternates, RepAlternates, RepliesMatch. Real REQ/REP sockets: "
         "calling tasks run under the controlled scheduler and two racing calls are held exactly after the state check in every "
         "order, for recv(), recv_multipart() and mixed calls (exactly one may succeed, the loser gets InvalidState, the reply reaches "
-        "the right requester); a reply that arrives after RCVTIMEO; every sequence "
+        "the right requester); a send() out of turn before / between the frame-wise reads of a multi-frame reply (refused, and the reply stays whole); a reply that arrives after RCVTIMEO; every sequence "
         "of <= 4/5 calls on a real REQ and a real REP (tcp, inproc) is recorded and validated by TLC against the state machines "
         "(Trace_ReqRep).",
    note="Interleavings are explored at the hook after the state check and at awaits, not inside lock-protected sections. "
@@ -137,7 +137,7 @@ CHECKS = {
         "invariants evaluated on the real maps; delimiter helpers are checked for every payload shape. Real ROUTER sockets with "
         "DEALER/REQ peers (distinct, absent, 255-byte identities; payloads with empty frames in every position; mandatory on/off; "
         "reconnect with the same identity; tcp/ipc/inproc/io_uring): identity frame == sender's ROUTING_ID, echoes and addressed "
-        "messages reach only the addressed peer unchanged (replies of every shape: empty first, middle, only frame), unroutable -> "
+        "messages reach only the addressed peer unchanged (replies of every shape: empty first, middle, only frame; AUTO_DELIMITER 0 and 1), unroutable -> "
         "HostUnreachable / silent drop.",
    note="Socket-level order of connect / first message / identity announcement is whatever the runtime produces (observed, not "
         "enumerated).",
@@ -158,7 +158,9 @@ CHECKS = {
    design_ref="DESIGN.md 5 (C02)"),
  "C14": dict(
    text="TLC checks Hwm.tla (bounded path, send() with SNDTIMEO in {-1,0,T} against a consumer that drains when it pleases, "
-        "integer clock): Timeo0, TimeoPos, TimeoInf, Bound, RefusedNotDelivered, DeliveredPrefix; and Session.tla's EgressBound. "
+        "integer clock): Timeo0, TimeoPos, TimeoInf, Bound, RefusedNotDelivered, DeliveredPrefix; Session.tla's EgressBound; and Egress.tla (the "
+        "session's write queue, whose pending-message count is what is compared with SNDHWM): every history of <= 5 / 6 push / priority / "
+        "advance operations with writes ending anywhere is replayed on the real EgressBuffer, count and head chunk compared after every step. "
         "Real sockets with a reader that stalls and later starts (PUSH/PULL, DEALER/ROUTER, PUB/SUB; tcp/ipc/inproc; HWM 1..256; the "
         "sender connecting or binding; RCVTIMEO different from SNDTIMEO): "
         "every send()/recv() is recorded with its timeout option, result and duration and validated by TLC against the timeout "
